@@ -225,13 +225,15 @@ func (c Dirs) Files(s Src) map[string]string {
 	fmt.Fprintf(&b, "filegroup(name=\"fg\", srcs=[\"sdir\"])\n")
 	fmt.Fprintf(&b, "text_file(name=\"t\", content=%q, out=\"t.txt\")\n", s["t_content"]+"\n")
 	fmt.Fprintf(&b, "genrule(name=\"g\", srcs=[\":fg\", \":t\"], outs=[\"g.out\"], binary=%s, cmd=%q)\n", s["g_binary"], fmt.Sprintf(logPfx, "//p:g")+listCmd)
-	fmt.Fprintf(&b, "filegroup(name=\"ff\", srcs=[\"f.txt\"])\n")
+	fmt.Fprintf(&b, "filegroup(name=\"ff\", srcs=[\"f.txt\"], visibility=[\"PUBLIC\"])\n")
 	fmt.Fprintf(&b, "genrule(name=\"h\", srcs=[\":ff\"], outs=[\"h.out\"], cmd=%q)\n", fmt.Sprintf(logPfx, "//p:h")+catCmd)
 	// a declared output that is itself a symlink (lib.so -> lib.so.1): its recorded rule hash lives in a side file, not in an xattr
 	// two regular output files (each carries the recorded hashes; a cache restore links them one after the other)
 	fmt.Fprintf(&b, "genrule(name=\"m\", srcs=[\"d.txt\"], outs=[\"m1.out\", \"m2.out\"], cmd=%q)\n", fmt.Sprintf(logPfx, "//p:m")+"read -r x < $SRCS; echo $x > m1.out; echo $x$x > m2.out")
 	fmt.Fprintf(&b, "genrule(name=\"k\", srcs=[\"d.txt\"], outs=[\"k.txt\", \"k.lnk\"], cmd=%q)\n", fmt.Sprintf(logPfx, "//p:k")+"read -r x < $SRCS; echo $x > k.txt; ln -s k.txt k.lnk")
-	fs := map[string]string{"p/BUILD": b.String(), "p/d.txt": s["d_txt"] + "\n", "p/sdir/" + s["s_name"]: s["s_txt"] + "\n", "p/f.txt": s["f_txt"] + "\n"}
+	// another package re-exports the filegroup (its source is then a file under plz-out that is still the user's source inode)
+	p2 := "filegroup(name=\"ff2\", srcs=[\"//p:ff\"])\n" + fmt.Sprintf("genrule(name=\"h2\", srcs=[\":ff2\"], outs=[\"h2.out\"], cmd=%q)\n", fmt.Sprintf(logPfx, "//p2:h2")+catCmd)
+	fs := map[string]string{"p2/BUILD": p2, "p/BUILD": b.String(), "p/d.txt": s["d_txt"] + "\n", "p/sdir/" + s["s_name"]: s["s_txt"] + "\n", "p/f.txt": s["f_txt"] + "\n"}
 	if c.Config != "" {
 		fs[".plzconfig"] = plzconfig + c.Config
 	}
@@ -253,6 +255,8 @@ func (c Dirs) Targets(s Src) []Target {
 		{"//p:h", []string{"plz-out/gen/p/h.out"}},
 		{"//p:k", []string{"plz-out/gen/p/k.txt", "plz-out/gen/p/k.lnk"}},
 		{"//p:m", []string{"plz-out/gen/p/m1.out", "plz-out/gen/p/m2.out"}},
+		{"//p2:ff2", []string{"plz-out/gen/p2/f.txt"}},
+		{"//p2:h2", []string{"plz-out/gen/p2/h2.out"}},
 	}
 }
 
@@ -261,7 +265,7 @@ func (c Dirs) Args(s Src) ([]string, []string) {
 	if n == "" {
 		n = "1"
 	}
-	return []string{"build", "--plain_output", "-v", "warning", "-n", n, "//p:all"}, nil
+	return []string{"build", "--plain_output", "-v", "warning", "-n", n, "//p:all", "//p2:all"}, nil
 }
 
 func (c Dirs) Sigs(s Src, clean *Obs) map[string]string {
@@ -275,12 +279,13 @@ func (c Dirs) Sigs(s Src, clean *Obs) map[string]string {
 		}
 	}
 	return map[string]string{
-		"//p:d": defs["//p:d"] + "|" + files["p/d.txt"],
-		"//p:e": defs["//p:e"] + "|" + clean.Outs["//p:d"],
-		"//p:g": defs["//p:g"] + "|" + clean.Outs["//p:fg"] + "|" + clean.Outs["//p:t"],
-		"//p:h": defs["//p:h"] + "|" + clean.Outs["//p:ff"],
-		"//p:k": defs["//p:k"] + "|" + files["p/d.txt"],
-		"//p:m": defs["//p:m"] + "|" + files["p/d.txt"],
+		"//p:d":   defs["//p:d"] + "|" + files["p/d.txt"],
+		"//p:e":   defs["//p:e"] + "|" + clean.Outs["//p:d"],
+		"//p:g":   defs["//p:g"] + "|" + clean.Outs["//p:fg"] + "|" + clean.Outs["//p:t"],
+		"//p:h":   defs["//p:h"] + "|" + clean.Outs["//p:ff"],
+		"//p:k":   defs["//p:k"] + "|" + files["p/d.txt"],
+		"//p:m":   defs["//p:m"] + "|" + files["p/d.txt"],
+		"//p2:h2": files["p2/BUILD"] + "|" + clean.Outs["//p2:ff2"],
 	}
 }
 
